@@ -86,4 +86,8 @@ else:
 nb = len(out['break']); nk = sum(1 for v in out['break'].values() if list(v['exit'].values()) == [1])
 ng = len(out['benign']); ns = sum(1 for v in out['benign'].values() if all(c == 0 for c in v['exit'].values()))
 print('breaking: %d/%d caught; benign: %d/%d silent' % (nk, nb, ns, ng))
+# the per-worker cargo target directories are a cache for this run only (several GB each): drop them
+import glob, shutil
+for d in glob.glob(os.path.join(V, '.work', 'target-w*')):
+    shutil.rmtree(d, ignore_errors=True)
 sys.exit(1 if bad else 0)
